@@ -289,7 +289,7 @@ fn main() {
     }
 
     // 2. random larger cases
-    let n_random = if thorough { 200_000 } else { 6_000 };
+    let n_random = if thorough { 1_000_000 } else { 6_000 };
     for _ in 0..n_random {
         let len = rng.range(1, 40) as usize;
         let c = *rng.pick(&CARRIERS);
@@ -310,7 +310,7 @@ fn main() {
     }
 
     // 3. setter histories on one field set
-    let n_hist = if thorough { 40_000 } else { 3_000 };
+    let n_hist = if thorough { 150_000 } else { 3_000 };
     for _ in 0..n_hist {
         let len = rng.range(1, 6) as usize;
         let nf = rng.range(2, 6) as usize;
